@@ -1006,6 +1006,12 @@ fn run_tool(cli: &str, d: &CliDict, flags: &[String], file: &Path) -> Result<Str
 
 /// one run of the tool over a file; one case per input line
 fn cli_run(sink: &mut Sink, cli: &str, d: &CliDict, flags: &[&str], lines: &[String], file: &Path, verbose: bool) {
+    cli_run_opt(sink, cli, d, flags, lines, file, verbose, true)
+}
+
+/// with_model = false: lines of more than 4000 bytes are compared with the Rust reference only (no Coq term)
+#[allow(clippy::too_many_arguments)]
+fn cli_run_opt(sink: &mut Sink, cli: &str, d: &CliDict, flags: &[&str], lines: &[String], file: &Path, verbose: bool, with_model: bool) {
     let flags: Vec<String> = flags.iter().map(|s| s.to_string()).collect();
     let wakati = flags.iter().any(|f| f == "-w");
     let only = flags.windows(2).any(|w| w[0] == "--split-sentences" && w[1] == "only");
@@ -1021,7 +1027,7 @@ fn cli_run(sink: &mut Sink, cli: &str, d: &CliDict, flags: &[&str], lines: &[Str
         sink.tag("cli_only_mode_file");
         match out {
             Ok(o) if o == lines.concat() => {}
-            Ok(o) => sink.fail(id, &format!("--split-sentences only printed {:?} for the lines {:?}", o, lines), ""),
+            Ok(o) => sink.fail(id, &format!("--split-sentences only printed {:?} for the lines {:?}", ab(&o), lines.iter().map(|l| ab(l)).collect::<Vec<_>>()), ""),
             Err(e) => sink.fail(id, &e, ""),
         }
         return;
@@ -1065,7 +1071,7 @@ fn cli_run(sink: &mut Sink, cli: &str, d: &CliDict, flags: &[&str], lines: &[Str
         let mut dsc = base(line);
         dsc["lexicon"] = json!(lex);
         let has_term = chars.iter().any(|&c| is_period(c) || is_dot(c));
-        let id = sink.case(term, dsc, has_term);
+        let id = if with_model || line.len() <= 4000 { sink.case(term, dsc, has_term) } else { sink.case_rust_only(dsc, has_term) };
         sink.tag(&format!("cli_{}_{}", d.name, if wakati { "wakati" } else { "default" }));
         if lex.iter().any(|w| w.chars().count() > 1 && w.chars().any(|c| is_period(c) || is_dot(c))) {
             sink.tag("cli_line_with_terminator_word");
@@ -1078,8 +1084,27 @@ fn cli_run(sink: &mut Sink, cli: &str, d: &CliDict, flags: &[&str], lines: &[Str
         }
         match &ranges {
             None => {
-                sink.fail(id, &format!("the sentences shown by the tool ({:?} ...) do not concatenate to the line {:?}", shown.get(k), line), "");
+                sink.fail(id, &format!("the sentences shown by the tool ({:?} ...) do not concatenate to the line {:?}", shown.get(k).map(|x| ab(x)), ab(line)), "");
                 return; // attribution is lost for the rest of the file
+            }
+            Some(r) if *r != want && line.len() > 400 => {
+                let k0 = (0..r.len().min(want.len())).find(|&k| r[k] != want[k]).unwrap_or(r.len().min(want.len()));
+                let show = |v: &Vec<(usize, usize)>| v.get(k0).map(|&(b, e)| format!("{:?} (bytes {}..{})", ab(&line[b..e]), b, e)).unwrap_or("nothing".into());
+                sink.fail(
+                    id,
+                    &format!(
+                        "tool {:?} on a line of {} bytes ({}): {} sentences, the splitter with the dictionary as checker gives {}; sentence {} is {} but should be {}",
+                        flags,
+                        line.len(),
+                        ab(line),
+                        r.len(),
+                        want.len(),
+                        k0,
+                        show(r),
+                        show(&want)
+                    ),
+                    "",
+                )
             }
             Some(r) if *r != want => sink.fail(
                 id,
@@ -1143,6 +1168,42 @@ fn cli_section(sink: &mut Sink, rng: &mut Rng, args: &Args) {
         std::fs::write(&file, file_bytes(rng, &lines)).unwrap();
         cli_run(sink, &cli, d, flags, &lines, &file, false);
     }
+    // one very long line (longer than the tokenizer's input limit of 49149 bytes, every sentence far shorter) in the
+    // splitting modes: the sentences must be those of the splitter on the whole line
+    let long = cli_long_line(&[49149, 49148, 49147, 49150, 49151]);
+    for (k, flags) in [&[][..], &["--split-sentences", "yes", "-w"][..], &["--split-sentences", "only"][..]].iter().enumerate() {
+        let lines = vec!["短い行。次".to_string(), long.clone(), "おわり。".to_string()];
+        let file = dir.join(format!("long{}.txt", k));
+        std::fs::write(&file, lines.join("\n") + "\n").unwrap();
+        cli_run_opt(sink, &cli, &a, flags, &lines, &file, false, k == 0);
+        sink.tag("cli_line_longer_than_tokenizer_limit");
+    }
+}
+
+/// One input line of 60,000..70,000 bytes made of many ordinary sentences of varying length (1-3 byte characters, no
+/// brackets, no dictionary word with a terminator); no sentence of the reference split ends at a byte offset in
+/// `avoid` (the tool must hand the WHOLE line to the splitter: nothing may cut it before).  The same for every seed.
+fn cli_long_line(avoid: &[usize]) -> String {
+    let pieces = ["京都に行った", "東京", "abc", "é", "テスト", "1,5", "ｘ", "に", "xyzw", "都", "東京都に", "ß"];
+    let ends = ["。", "！", "？", "…", "。", "!?", "。"];
+    let mut line = String::new();
+    let mut i = 0usize;
+    while line.len() < 64_000 {
+        let j = 6 + (i * 7) % 23;
+        for t in 0..j {
+            line.push_str(pieces[(i * 5 + t * 3) % pieces.len()]);
+        }
+        line.push_str(ends[i % ends.len()]);
+        i += 1;
+    }
+    loop {
+        let chars: Vec<char> = line.chars().collect();
+        let r = oracle_split(&chars, 4096, None);
+        if r.len() > 500 && !r.iter().any(|&(_, e)| avoid.contains(&e)) {
+            return line;
+        }
+        line.insert(0, 'あ');
+    }
 }
 
 fn cli_replay(sink: &mut Sink, c: &Value, args: &Args) {
@@ -1168,7 +1229,7 @@ fn cli_replay(sink: &mut Sink, c: &Value, args: &Args) {
 pub fn run(args: &Args) {
     let mut sink = Sink::new("C16", &args.out, &["Model.Sentence"], args.seed, &args.tier);
     sink.shard_size = 120;
-    sink.rule("texts over an alphabet of terminators, periods/full-width dots, middle dots, commas, regex-special characters (backslash ^ - * + | $, often right after a terminator / bracket / comma), <br>/<BR> tags and fragments, all bracket kinds, alphanumerics incl. kanji numerals, quoting particles, whitespace, 1-4 byte characters; directed shapes (itemisation headers, decimals, quotes, nesting) with one-piece perturbations; limits 1..8, 4096, |text|-1..|text|+1; two directed texts with more than 65,536 bytes before a dictionary word containing a terminator (windows 100,000 and |unpunctuated part|+5); without checker or with a checker over a system dictionary + 0..3 user dictionaries compiled in memory (one-character terminator entries, substrings of the text around terminators, long words; words containing a terminator and words with the same start are put into different lexicons, both directions, some words entered twice); command-line tool built from the working tree: multi-line files (dictionary words incl. those containing terminators, plain pieces, brackets, blank lines, CRLF) x {default, -w} x --split-sentences {yes, default, only} x modes over the repository's test configuration and over a generated system + user dictionary; the sentences visible in the output (EOS lines / wakati lines) must be the model's with the dictionary words of the line as lexicon oracle; non-trivial = the text contains a terminator candidate; distinct by generated Coq term");
+    sink.rule("texts over an alphabet of terminators, periods/full-width dots, middle dots, commas, regex-special characters (backslash ^ - * + | $, often right after a terminator / bracket / comma), <br>/<BR> tags and fragments, all bracket kinds, alphanumerics incl. kanji numerals, quoting particles, whitespace, 1-4 byte characters; directed shapes (itemisation headers, decimals, quotes, nesting) with one-piece perturbations; limits 1..8, 4096, |text|-1..|text|+1; two directed texts with more than 65,536 bytes before a dictionary word containing a terminator (windows 100,000 and |unpunctuated part|+5); without checker or with a checker over a system dictionary + 0..3 user dictionaries compiled in memory (one-character terminator entries, substrings of the text around terminators, long words; words containing a terminator and words with the same start are put into different lexicons, both directions, some words entered twice); command-line tool built from the working tree: one directed line of ~64,000 bytes made of many short sentences (longer than the tokenizer's input limit) in the default, -w and `only` modes; multi-line files (dictionary words incl. those containing terminators, plain pieces, brackets, blank lines, CRLF) x {default, -w} x --split-sentences {yes, default, only} x modes over the repository's test configuration and over a generated system + user dictionary; the sentences visible in the output (EOS lines / wakati lines) must be the model's with the dictionary words of the line as lexicon oracle; non-trivial = the text contains a terminator candidate; distinct by generated Coq term");
     if let Some(p) = &args.replay {
         let v: Value = serde_json::from_str(&std::fs::read_to_string(p).unwrap()).unwrap();
         let c = &v["case"];
